@@ -5,7 +5,9 @@
 import sys, os, subprocess, json, tempfile, shutil, time
 HERE = os.path.dirname(os.path.abspath(__file__))
 sys.path.insert(0, HERE)
-from catalogue import MUTANTS
+from catalogue import MUTANTS, BENIGN
+for _k, _v in BENIGN.items():
+    MUTANTS[_k] = ('ALL', _v)
 MD = os.path.join(HERE, "mutants")
 GOENV = dict(os.environ, GOPROXY="off", GOSUMDB="off", GOTOOLCHAIN="local")
 
@@ -63,9 +65,29 @@ def build(names):
     json.dump(old, open(sp, "w"), indent=1, sort_keys=True)
 
 
+ALLPROPS = ["C%02d" % i for i in range(1, 21)]
+
+
+def run_benign(names):
+    """every check must exit 0 on a property-preserving change"""
+    bad = 0
+    for name in names:
+        for prop in ALLPROPS:
+            r = sh([os.path.join(HERE, "run_mutant.sh"), os.path.join(MD, name + ".diff"), prop])
+            out = r.stdout + r.stderr
+            code = ([l for l in out.splitlines() if l.startswith("exit=")] or ["exit=?"])[-1]
+            print("%-40s %s %s" % (name, prop, code), flush=True)
+            if code != "exit=0":
+                bad += 1
+                print("    " + "\n    ".join(out.splitlines()[-8:]))
+    print("false alarms / failures: %d" % bad)
+
+
 def run(names):
     rows = []
     for name in names:
+        if name in BENIGN:
+            continue
         prop, _ = MUTANTS[name]
         t0 = time.time()
         r = sh([os.path.join(HERE, "run_mutant.sh"), os.path.join(MD, name + ".diff"), prop])
@@ -83,4 +105,4 @@ def run(names):
 if __name__ == "__main__":
     cmd = sys.argv[1]
     names = sys.argv[2:] or sorted(MUTANTS)
-    {"build": build, "run": run}[cmd](names)
+    {"build": build, "run": run, "benign": run_benign}[cmd](names if sys.argv[2:] else (sorted(BENIGN) if cmd == "benign" else names))
